@@ -58,6 +58,71 @@ pub fn exec_oracle(kind: &str, fields: &[&str]) -> String {
             })
         }
         "S_C19U" => oracle_c19u(fields),
+        "S_C19T" => {
+            // a tuple type of a user (any dimension): the accessors and the arithmetic of the trait's defaults are
+            // the element-wise definitions
+            fn judge<T: CoordinateTuple + Copy>(t: T, v: &[f64], w: &[f64], f: f64) -> String {
+                let same = |a: f64, b: f64| a.to_bits() == b.to_bits() || (a.is_nan() && b.is_nan());
+                let n = v.len();
+                if t.dim() != n {
+                    return format!("oracle FAIL dim() of a tuple of {n} elements is {}", t.dim());
+                }
+                for i in 0..n + 3 {
+                    let want = if i < n { v[i] } else { f64::NAN };
+                    if !same(t.nth(i), want) {
+                        return format!("oracle FAIL nth({i}) of a user's tuple of {n} elements is {}, stored {}", t.nth(i), want);
+                    }
+                }
+                let firsts = [t.x(), t.y(), t.z(), t.t()];
+                for (i, got) in firsts.iter().enumerate() {
+                    let want = if i < n { v[i] } else { f64::NAN };
+                    if !same(*got, want) {
+                        return format!("oracle FAIL accessor {i} of a user's tuple of {n} elements is {got}, stored {want}");
+                    }
+                }
+                let s = t.scale(f);
+                for i in 0..n {
+                    if !same(s.nth_unchecked(i), v[i] * f) {
+                        return format!("oracle FAIL scale({f}): element {i} of {n} is {}, element-wise {}", s.nth_unchecked(i), v[i] * f);
+                    }
+                }
+                let mut other = T::new(0.0);
+                other.update(w);
+                let mut want = 0.0;
+                for i in 0..n {
+                    want += v[i] * w[i];
+                }
+                if !same(t.dot(other), want) {
+                    return format!("oracle FAIL dot of tuples of {n} elements is {}, element-wise {}", t.dot(other), want);
+                }
+                let mut u = t;
+                for i in 0..n {
+                    u.set_nth(i, w[i]);
+                }
+                for i in 0..n {
+                    if !same(u.nth(i), w[i]) {
+                        return format!("oracle FAIL set_nth({i}) then nth({i}) of a user's tuple of {n} elements: {} for {}", u.nth(i), w[i]);
+                    }
+                }
+                "oracle pass".to_string()
+            }
+            let v: Vec<f64> = fields[0].split(',').map(parse_f).collect();
+            let w: Vec<f64> = fields[1].split(',').map(parse_f).collect();
+            let f = parse_f(fields[2]);
+            if v.len() != w.len() {
+                return "bad-case".to_string();
+            }
+            match v.len() {
+                1 => judge(crate::exec::user_tuple::<1>(&v), &v, &w, f),
+                2 => judge(crate::exec::user_tuple::<2>(&v), &v, &w, f),
+                3 => judge(crate::exec::user_tuple::<3>(&v), &v, &w, f),
+                4 => judge(crate::exec::user_tuple::<4>(&v), &v, &w, f),
+                5 => judge(crate::exec::user_tuple::<5>(&v), &v, &w, f),
+                6 => judge(crate::exec::user_tuple::<6>(&v), &v, &w, f),
+                8 => judge(crate::exec::user_tuple::<8>(&v), &v, &w, f),
+                _ => "bad-case".to_string(),
+            }
+        }
         "S_C19O" => {
             // the dm / dms operators: encode (inverse) then decode (forward) returns every position as it was
             let op = fields[0];
